@@ -5,6 +5,52 @@ import json, os, subprocess
 ROOT = os.path.dirname(os.path.dirname(os.path.abspath(__file__)))
 
 CLAIMED = {
+ "C02": dict(
+   technique="stateless exploration of real code from identical cold process states: BFS over compilation histories, preemption-bounded enumeration of thread schedules at hooked shared-state accesses, enumeration of hash seeds through getrandom interposition; oracle = fresh-process result",
+   text="Every execution runs in a child forked from a cold single-threaded zygote. History: all pairs over a 14-program alphabet and all triples (thorough: 4-sequences) over a 7-program core, every position compared with the fresh-process result; every corpus program after 3 (thorough 14) alphabet programs on the same thread and repeated. Schedule: 2 (thorough 3) threads compiling programs that collide on the interner and the two global counters, all schedules with <= 1 preemption for every unordered pair of a 6-program alphabet, <= 2 (thorough 3) for the identifier pair, scheduling points = the three hook sites; replay divergence is a hard error. Hash seeds: every alphabet and corpus program under 6 (thorough 64) seeds. unique-id(): 1..64 calls distinct and valid.",
+   note="Sequential consistency between scheduling points (the hooks cover every access to process- or thread-global mutable state; once_cell initialisation is warmed up before the hook is installed). Seeds are a finite alphabet, not the 2^128 key space; allocation-address dependent behaviour (pointer hashing) is only reachable through the seed/history repetitions, not enumerated. unique-id distinctness rests on the RNG.",
+   design="§3 C02, §2"),
+ "C05": dict(
+   technique="exhaustive enumeration over the golden corpus and a bounded string-escaping grammar x styles x charset flag; structural invariants by an independent CSS reader and a fixed-point relation on canonical trees",
+   text="For every compiling corpus input and every string of <= 2 (thorough 3) pieces over a 20-piece escaping alphabet in 15 string-bearing positions, x {expanded, compressed} x {charset on, off}: the output is valid UTF-8, carries @charset/BOM exactly when non-ASCII and allowed, is balanced (independent reader), contains no Sass-only syntax, and re-compiling it as CSS and as SCSS succeeds and reproduces the same canonical tree.",
+   note="Domain per the property: outputs whose declaration values are CSS component values (positive grammar in the harness); outputs of inspect()-style printing, and inputs that splice text with interpolation/unquote (which can spell calls Sass evaluates on re-reading), are counted as excluded from the fixed-point relation, not from the structural invariants.",
+   design="§3 C05"),
+ "C06": dict(
+   technique="exhaustive enumeration of corpus inputs and of a value x site sensitivity grammar, each compiled in both styles and compared on canonical trees, log messages and ok/error class",
+   text="Every corpus input, 39 value spellings x 48 value-to-text sites (interpolation into strings, selectors, property names, media queries, string concatenation, unary operators, @warn/@debug/@error, plain CSS functions, string functions applied to the resulting text, control flow on it), and a 3-digit number lattice at 8 scales: expanded and compressed results must have equal canonical trees (independent canonicaliser), equal @warn/@debug message sequences and the same ok/error classification.",
+   note="The canonicaliser erases only whitespace, optional semicolons, non-preserved comments (and rules left empty by that), number spellings (leading/trailing zeros) and colour spellings (names, short/long hex, rgb()/hsl() functional forms).",
+   design="§3 C06"),
+ "C07": dict(
+   technique="product enumeration of a literal lattice and operand pairs; exact big-integer decimal reference for printing; IEEE reference for arithmetic; tolerance cases placed clearly inside/outside 1e-11",
+   text="Every 1-3 (thorough 1-4) digit mantissa at 29 decimal scales plus boundary literals (around .5, 1e-10, exact dyadic ties, exponent forms) x 2 styles x {literal, literal+0} against the correctly rounded 10-digit rendering computed with exact big-integer arithmetic (both neighbours accepted only at an exact tie) and re-reading of the printed text; 33^2 operand pairs x 6 operations against the harness's IEEE result; 11 bases x 12 offsets inside (<= 4e-12) / outside (>= 1.6e-11) the tolerance for == != < > <= >= round ceil floor abs integer checks and list indexing; 11 sass:math functions x 17 arguments.",
+   note="Doubles outside the lattice are not covered. math.round at a tie reached only within the tolerance may go either way (the property does not fix it). pow and % are accepted within one ulp.",
+   design="§3 C07"),
+ "C09": dict(
+   technique="complete enumeration of pairs and triples over a 62-value universe; explicit-state breadth-first search over map-operation sequences with a reference ordered association list, every transition replayed on the implementation",
+   text="All 62^2 ordered pairs (== vs !=, reflexivity, symmetry) and all 62^3 triples (transitivity) of a universe with equal-after-conversion numbers, fuzzy neighbours, quoted/unquoted strings, colour spellings, list shapes, maps, calc and function values; 8 keyed operations on every (key, probe) pair must agree with the observed ==; map literals are rejected exactly for == keys; BFS to depth 4 (thorough 6) over 102 map operations (merge, 2-pair merge, set, remove, 2-key remove, deep-merge, deep-remove on 6 key spellings in 3 equality classes), canonical state = order of classes, all observations (values, @each order, length, get/has-key for every spelling) after every step.",
+   note="The universe is representative, not all values. Which spelling of an updated key is retained is not observed.",
+   design="§3 C09"),
+ "C13": dict(
+   technique="exhaustive enumeration of virtual directory layouts (environment answers) x URL forms x rule kinds x load-path lists, through a tracing in-memory Fs, against a reference resolver",
+   text="8 URL forms x {@import, @use, @forward} x 2 (thorough 4) load-path lists x 1 (thorough 2) importer locations x (no file, every single candidate, every pair of candidates; thorough: every triple for the plain URL): the loaded file (marker in the output) or the error must be the reference resolver's answer, the error must be located at the import statement, every Fs call must be on a candidate path of that search, and decoy files on the real disk (the process runs inside a directory holding them) must never be read; 11 plain-CSS import forms must be emitted verbatim without any Fs call.",
+   note="Layouts where two same-priority candidates coexist are excluded as the property states. The in-memory Fs normalises paths lexically.",
+   design="§3 C13, A.3"),
+ "C14": dict(
+   technique="exhaustive enumeration of calls over small universes of lists, indices, maps and strings against reference implementations written from the documentation, plus algebraic laws and module-vs-global agreement",
+   text="About 16k (thorough 24k) calls: every list of length 0-4 (6) in every separator/bracket shape x indices -8..8, non-integers, fuzzy integers and wrongly typed arguments for length/nth/set-nth/index/append/join/zip/list-separator/is-bracketed; 9 maps incl. two nested levels x 7 keys for get/has-key/keys/values/merge/remove/set/deep-merge/deep-remove and their nested-key variants; 20 strings over ASCII, combining and astral code points with positions -6..6 (8) for length/slice/index/insert/quote/unquote/case/split; every result compared on inspect() text (error iff reference error); each module function compared with its global alias; 21 algebraic laws.",
+   note="Sub-spaces the documentation leaves open are excluded: map.deep-remove through a missing or non-map intermediate key, string.split with an empty separator / empty string / unquoted input.",
+   design="§3 C14"),
+ "C18": dict(
+   technique="exhaustive enumeration of statement trees printed by two independent printers, and of token-preserving rewrites of every corpus input, compared as metamorphic relations",
+   text="All statement trees of depth <= 2 over a 21-template alphabet printed as SCSS and as indented syntax must compile identically; every corpus input under CRLF/CR/FF line terminators, BOM and @charset prefixes, leading/trailing blank lines; every corpus input the CSS parser accepts compiled as CSS and as SCSS; 30 Sass-only constructs rejected in CSS mode; whitespace and silent comments inserted after every `{` `;` `}` (one at a time and all at once) of every compiling SCSS corpus input; 12 definition/use templates x 5 name pairs with `_` and `-` exchanged at definition, use, or both.",
+   note="Noise is only inserted where it is lexically insignificant (outside strings, comments, parentheses, interpolation and custom properties). Prefix/suffix rewrites are applied to compiling inputs only.",
+   design="§3 C18"),
+ "C20": dict(
+   technique="complete product enumeration of CLI flags x input kinds x source/sink modes, each real process run compared with the library called in-process",
+   text="2^5 flag combinations x {file argument, --stdin} x {stdout, output file, unwritable output file} x 14 input kinds (1 760 process runs of the real binary built from /repo with the guard off): stdout/output file equals the library's CSS and exit 0; on a compile error exit != 0, stderr equals the warnings logged so far plus the library's rendered error, stdout empty; on I/O errors exit != 0 with a message and no CSS; warnings/debug on stderr only and absent with --quiet. Thorough adds every SCSS corpus input through --stdin under 8 style/charset/unicode combinations.",
+   note="StdLogger's text format is reproduced by the harness from the events a collecting Logger receives. Flag combinations the CLI cannot express (--stdin with an output file) are skipped.",
+   design="§3 C20"),
+
  "C01": dict(
    technique="bounded exhaustive enumeration of inputs (token strings, typed argument tuples, one-edit corpus neighbours, byte strings, nesting depths/widths) executed on the real compiler; crash/hang/panic oracle with subprocess isolation",
    text="Stateless exhaustive exploration of the real compiler over finite input spaces: every token string of length <=2 (thorough <=3; <=3/<=4 at top level) over a 46-token alphabet in 22 syntactic contexts x 3 syntaxes; every built-in x every argument tuple (arity <=2 over 40 values, arity 3 over 8/16 values, named and splat forms); operators, calc family, hex-escape boundaries and 52 syntactic positions x the value universe; every single-token deletion and every token-boundary prefix of the 3.4k golden-corpus inputs (thorough: every single insertion/substitution); entry and imported files made of boundary byte strings; 18 nesting constructs and 15 width pumps in isolated processes. Each case must end in Ok or a structured error that converts to the public kind and renders in both modes; panic, abort, or no progress for 20 s is a violation.",
